@@ -8,6 +8,9 @@ EXPLANATION = ('All keys collide in one bucket (3 slots + extension items). Sequ
 ASSUMPTIONS = ['trivial int keys/values, capacity 128, reclaimer = epoch based; no traversal and no grow (iteration over 128 buckets and non-trivial keys '
                'exceed the engine: DESIGN.md 10.2); 2 threads, K=2-3; SC only']
 TIMEOUT = {'quick': 900, 'thorough': 2400}
+# the reader's walk over the extension chain may run into the free list of the extension bucket (10 items) when an item is
+# unlinked under it: give that loop enough iterations that such executions stay inside the claim (unwinding assertion holds)
+UM = {'*try_get_value*': 14}
 SEQ, MT = 'C10/vmap_ops.cpp', 'C10/vmap_mt.cpp'
 
 
@@ -16,9 +19,9 @@ def scenarios(tier):
          Scenario('seq-extract-symbolic-key', SEQ, ['RECL=5', 'UPD=2', 'NO_TRAVERSAL'], unwind=8, sym_loop_cap=400, cover=[1, 2]),
          Scenario('seq-emplace-symbolic-key', SEQ, ['RECL=5', 'UPD=4', 'NO_TRAVERSAL'], unwind=8, sym_loop_cap=400, cover=[1, 2])]
     for rk, wk in ((5, 4), (4, 5), (3, 1), (5, 2)):
-        s.append(Scenario('mt-lookup%d-vs-erase%d-K2' % (rk, wk), MT, ['RECL=5', 'RK=%d' % rk, 'WK=%d' % wk], threads=2, K=2, unwind=6, cover=[1, 2], allow_unwound=True))
+        s.append(Scenario('mt-lookup%d-vs-erase%d-K2' % (rk, wk), MT, ['RECL=5', 'RK=%d' % rk, 'WK=%d' % wk], threads=2, K=2, unwind=6, unwind_map=UM, cover=[1, 2]))
     if tier == 'thorough':
         for rk, wk in ((4, 5), (3, 1), (6, 5)):
-            s.append(Scenario('mt-lookup%d-vs-extract%d-K3' % (rk, wk), MT, ['RECL=5', 'NKEYS=6', 'RK=%d' % rk, 'WK=%d' % wk, 'W_EXTRACT'], threads=2, K=3, unwind=6, cover=[1, 2], allow_unwound=True))
-        s.append(Scenario('mt-lookup4-vs-erase4-K2', MT, ['RECL=5', 'RK=4', 'WK=4'], threads=2, K=2, unwind=6, cover=[1, 2], allow_unwound=True))
+            s.append(Scenario('mt-lookup%d-vs-extract%d-K3' % (rk, wk), MT, ['RECL=5', 'NKEYS=6', 'RK=%d' % rk, 'WK=%d' % wk, 'W_EXTRACT'], threads=2, K=3, unwind=6, unwind_map=UM, cover=[1, 2], allow_unwound=True))
+        s.append(Scenario('mt-lookup4-vs-erase4-K2', MT, ['RECL=5', 'RK=4', 'WK=4'], threads=2, K=2, unwind=6, unwind_map=UM, cover=[1, 2]))
     return s
